@@ -233,4 +233,64 @@ theorem VerifyAuthenticity_model (n : Nat) (chain : Option (List TCert)) (ts : L
           exact ⟨x, hs, rfl⟩
   · simp
 
+/-! ### `SignerInfo.AuthenticSigningTime` and `SignerInfo.ExtendedAttribute` -/
+
+def afuncs : List Func := [signature_SignerInfo_AuthenticSigningTime, signature_SignerInfo_ExtendedAttribute]
+
+def noPrims : Prims := fun _ _ => none
+
+def signerInfoV (scheme : String) (st : Int) (attrs : List Val) : Val :=
+  .obj [("SignedAttributes", .obj [("SigningScheme", .str scheme), ("SigningTime", .int st), ("ExtendedAttributes", .list attrs)])]
+
+/-- an authentic signing time exists exactly under the signing-authority scheme with a non-zero
+    signing time, and then it is that signing time — whatever else the signer info carries -/
+theorem AuthenticSigningTime_eq (n : Nat) (scheme : String) (st : Int) (attrs : List Val) :
+    sem noPrims afuncs (n + 1) "SignerInfo.AuthenticSigningTime" [signerInfoV scheme st attrs]
+      = some (match Trust.authenticSigningTime (scheme == "notary.x509.signingAuthority") st with
+          | some t => .tuple [.int t, .nil]
+          | none => if scheme = "notary.x509.signingAuthority"
+              then .tuple [.int (-62135596800000000000), .err "SignerInfo.AuthenticSigningTime" 0 []]
+              else .tuple [.int (-62135596800000000000), .err "SignerInfo.AuthenticSigningTime" 1 []]) := by
+  rw [sem_succ]
+  have hfind : afuncs.find? (fun f => f.name == "SignerInfo.AuthenticSigningTime") = some signature_SignerInfo_AuthenticSigningTime := rfl
+  rw [hfind]
+  by_cases hs : scheme = "notary.x509.signingAuthority" <;> by_cases hz : st = -62135596800000000000 <;>
+    simp [signature_SignerInfo_AuthenticSigningTime, run, pack, execBlock, exec, eval, evalArgs, sbindAll, sbind, sdefine, fset, sget, fget,
+      spop, binop, builtin, field, signerInfoV, Trust.authenticSigningTime, isZeroT, zeroT, hs, hz]
+
+/-- an attribute of the list -/
+def attrV (key : String) (crit : Bool) (tok : Nat) : Val := .obj [("Key", .str key), ("Critical", .bool crit), ("Value", .opaque tok)]
+
+def attrBody : List Stmt := rangeBody (signature_SignerInfo_ExtendedAttribute.body.getD 0 (.opaque ""))
+
+/-- text-keyed attributes: `ExtendedAttribute(key)` returns the first entry of the list with that
+    key, and an error when there is none (the lookup clause of C13) -/
+theorem attrLoop (fn : String) (cal) (S : Store) (k : String) : ∀ (as : List (String × Bool × Nat)) (i : Nat),
+    S = [[("v1", .str k), ("v0", S0)]] →
+    rangeLoop (fun st => execBlock ⟨fn, noPrims, cal⟩ st attrBody) "_" "v2" i (as.map (fun a => attrV a.1 a.2.1 a.2.2)) S
+      = match as.find? (fun a => a.1 == k) with
+        | some a => .ret [attrV a.1 a.2.1 a.2.2, .nil]
+        | none => .next S := by
+  intro as
+  induction as with
+  | nil => intro i _; simp [rangeLoop]
+  | cons a r ih =>
+    intro i hS
+    subst hS
+    obtain ⟨ak, ac, at_⟩ := a
+    have step : (fun st => execBlock ⟨fn, noPrims, cal⟩ st attrBody) ([("v2", attrV ak ac at_)] :: [[("v1", .str k), ("v0", S0)]])
+        = if ak = k then .ret [attrV ak ac at_, .nil] else .next ([("v2", attrV ak ac at_)] :: [[("v1", .str k), ("v0", S0)]]) := by
+      by_cases h : ak = k <;>
+        simp [attrBody, rangeBody, signature_SignerInfo_ExtendedAttribute, attrV, field, execBlock, exec, eval, evalArgs, sbindAll, sbind,
+          sdefine, fset, sget, fget, spop, binop, noPrims, h]
+    generalize (fun st => execBlock ⟨fn, noPrims, cal⟩ st attrBody) = F at ih step ⊢
+    have ih' := ih (i + 1) rfl
+    by_cases h : ak = k
+    · simp [h] at step
+      simp [rangeLoop, sbindAll, sbind, sdefine, fset, h] at step ⊢
+      simp [step]
+    · simp [h] at step
+      simp [rangeLoop, sbindAll, sbind, sdefine, fset, spop, h] at step ih' ⊢
+      simp [step, ih']
+
 end NotationCore.Tie.Code.Signature
